@@ -319,6 +319,7 @@ class Comp:
     self.decl = []
     self.children = []         # (inst name, Comp, list length or None)
     self.ifcs = []
+    self.nifcs = []
     self.regs = []
     self.nblk = 0
     self.params = params or []  # [(name, default)]
@@ -336,6 +337,7 @@ class DesignGen:
     self.structs = []
     self.classes = []          # rendered class texts, children first
     self.ifc_classes = {}
+    self.nifc_decls = []       # texts of the generated (nested) interface classes, inner ones first
     self.features = set()
     self.uid = 0
 
@@ -368,6 +370,37 @@ class DesignGen:
     st = Struct(name, fields)
     self.structs.append(st)
     return st
+
+  def new_nested_ifc(self, depth=0, lists_below=True):
+    """a fresh Interface class; returns (class name, leaves) with leaves = [(dotted path, 'in'|'out', width, list length or None)]"""
+    rng = self.rng
+    self.uid += 1
+    name = f'NI{self.uid}'
+    pool = rng.sample(['a0', 'ack', 'dat', 'en', 'lane', 'mid', 'q', 'zz'], rng.randint(3, 4) if depth < 2 else rng.randint(2, 3))
+    kinds = ['ifc'] if depth == 0 else []                      # the outermost level always holds an interface attribute
+    while len(kinds) < len(pool):
+      r = rng.random()
+      if r < 0.35 and (lists_below or depth == 0): kinds.append('list')
+      elif r < 0.45 and depth == 1 and lists_below: kinds.append('ifc')      # (verilog, current tree: one level of nesting only)
+      else: kinds.append('port')
+    if depth >= 1 and lists_below and 'list' not in kinds: kinds[0] = 'list'
+    if depth >= 1 and 'port' not in kinds: kinds[-1] = 'port'
+    rng.shuffle(kinds)
+    body, leaves = [], []
+    for m, k in zip(pool, kinds):
+      direction = rng.choice(['in', 'in', 'out'])
+      ctor = 'InPort' if direction == 'in' else 'OutPort'
+      W = rng.choice([1, 2, 4, 8])
+      if k == 'port':
+        body.append(f'    s.{m} = {ctor}( Bits{W} )'); leaves.append((m, direction, W, None))
+      elif k == 'list':
+        n = rng.choice([2, 3, (2, 2)])
+        body.append(f"    s.{m} = {list_ctor(f'{ctor}( Bits{W} )', dims_of(n))}"); leaves.append((m, direction, W, n))
+      else:
+        cls, sub = self.new_nested_ifc(depth + 1, lists_below)
+        body.append(f'    s.{m} = {cls}()'); leaves += [(f'{m}.{r}', d_, w_, n_) for r, d_, w_, n_ in sub]
+    self.nifc_decls.append('\n'.join([f'class {name}( Interface ):', '  def construct( s ):'] + body))
+    return name, leaves
 
   def pick_struct(self, flat_only=False):
     cands = [s for s in self.structs if s.flat or not flat_only]
@@ -437,6 +470,19 @@ class DesignGen:
         ins.append(Sig(f'ifc{tag}_msg', 'in', ('b', W), path=f'{pre}.msg'))
         ins.append(Sig(f'ifc{tag}_val', 'in', ('b', 1), path=f'{pre}.val'))
         outs.append(Sig(f'ifc{tag}_rdy', 'out', ('b', 1), path=f'{pre}.rdy'))
+    # ---- an interface that has another INTERFACE as an attribute (not a list of interfaces: known finding F25); the members
+    #      of every level - sorted by name by the translators - mix lists of ports, scalar ports and deeper interfaces
+    #      in all orders.  The SystemVerilog backend rejects a list of ports inside a nested interface on the current
+    #      tree, and so it does an interface nested two deep (TypeError in rtlir_tr_interface_port_decl): verilog designs get
+    #      one level of nesting with scalar members (opts['nifc_full'] lifts the restriction).
+    if rng.random() < self.opts.get('nifc', 0.3 if yos else 0.15):
+      cls, leaves = self.new_nested_ifc(lists_below=yos or bool(self.opts.get('nifc_full')))
+      c.nifcs.append(('nif', cls))
+      self.features.add('interface-nested')
+      for rel, direction, W, n in leaves:
+        nm = 'nif_' + rel.replace('.', '_')
+        (ins if direction == 'in' else outs).append(Sig(nm, direction, ('b', W), n=n, path=f's.nif.{rel}'))
+        if n is not None and '.' in rel: self.features.add('interface-nested-port-list')
     c.ins, c.outs, c.wires = ins, outs, wires
     c.sigs = ins + outs + wires
     # ---- declarations
@@ -447,6 +493,7 @@ class DesignGen:
       ty = f'Bits{s.T[1]}' if s.T[0] == 'b' else s.T[1].name
       if s.n is None: d.append(f'    s.{s.name} = {ctor}( {ty} )')
       else: d.append(f'    s.{s.name} = {list_ctor(f"{ctor}( {ty} )", dims_of(s.n))}')
+    for (iname, cls) in c.nifcs: d.append(f'    s.{iname} = {cls}()')
     for (iname, W, n) in c.ifcs:
       self.ifc_classes['GIfc'] = True
       d.append(f"    s.{iname} = {list_ctor(f'GIfc( Bits{W} )', dims_of(n))}")
@@ -504,7 +551,7 @@ class DesignGen:
       n = None
       # a list of identical sub-components (struct-free in yosys: finding F10d)
       has_struct_in = any(s.T[0] == 's' for s in ch.ins)
-      if rng.random() < 0.3 and not (yos and has_struct_in) and not ch.ifcs and not ch.children:      # lists of leaf components only
+      if rng.random() < 0.3 and not (yos and has_struct_in) and not ch.ifcs and not ch.nifcs and not ch.children:      # lists of leaf components only
         # 2-D lists only of leaf components (a 2x3 grid of sub-hierarchies makes the flattened design very large)
         n = rng.choice([2, 2, 2, (2, 2), (2, 3)])
         self.features.add('comp-array' + ('' if isinstance(n, int) else '-2d'))
@@ -576,7 +623,7 @@ class DesignGen:
         ch_ = next(x[1] for x in c.children if x[0] == iname_)
         pre_ = f's.{iname_}' if idx_ is None else f's.{iname_}{idx_text(idx_)}'
         prev_in = [pre_ + o.path[1:] for o in ch_.outs if o.path in getattr(ch_, 'reg_paths', ()) and o.T == s.T and o.n is None]
-      if prev_in and mode < self.opts.get('same_child', 0.25):
+      if prev_in and mode < self.opts.get('same_child', 0.12):
         # the parent connects an output of a child to an input of the SAME child instance (the current tree rejects the design:
         # 'connection missing from connect_order'; accepted => the usual comparison applies); control: via a parent wire
         src_ = rng.choice(prev_in)
@@ -917,6 +964,7 @@ class DesignGen:
     if self.ifc_classes:
       out += ['class GIfc( Interface ):', '  def construct( s, T ):', '    s.msg = InPort( T )', '    s.val = InPort()',
               '    s.rdy = OutPort()', '']
+    for t in self.nifc_decls: out += [t, '']
     for cl in self.classes: out += [cl, '']
     src = '\n'.join(out)
     import re
